@@ -393,6 +393,10 @@ class ESME:
 
         pdu: bytes = smpp_message.pdu()
         await self.hook.sending(smpp_message, pdu, self.client_id)  # Call user's hook
+        if not isinstance(smpp_message, (BindTransmitter, BindReceiver, BindTransceiver)):
+            # The connection may have been replaced while the hook was running:
+            # nothing but the bind request may be written before the new one is bound
+            await self._bound.wait()
 
         # We use writer.drain() which is a flow control method that interacts with the
         # IO write buffer. When the size of the buffer reaches the high watermark,
